@@ -13,18 +13,19 @@ import (
 type ctxKey struct{}
 
 const (
-	rActive  = iota // instances inside the managed function
-	rEntered        // instances entered so far (their ctx is in cell[id])
-	rCtxTag         // tag of the context last given to SetContext (0 = none)
-	rHasRt          // a routine is set
-	rState          // last state given to SetState
-	rCalls          // controller calls issued
-	rRuns           // entries of the erroring routine (retry scenarios)
-	rTagsExact      // 1 if every new generation of the routine gets a fresh tag (plain RoutineContainer)
-	rTag0    = 20   // +id: routine tag of instance id
-	rLeft0   = 60   // +id: instance id has returned
-	rClosed0 = 100  // +k: the channel returned by controller call k has closed
-	rState0  = 140  // +id: state argument of instance id
+	rActive    = iota // instances inside the managed function
+	rEntered          // instances entered so far (their ctx is in cell[id])
+	rCtxTag           // tag of the context last given to SetContext (0 = none)
+	rHasRt            // a routine is set
+	rState            // last state given to SetState
+	rCalls            // controller calls issued
+	rRuns             // entries of the erroring routine (retry scenarios)
+	rTagsExact        // 1 if every new generation of the routine gets a fresh tag (plain RoutineContainer)
+	rTag0      = 20   // +id: routine tag of instance id
+	rLeft0     = 60   // +id: instance id has returned
+	rClosed0   = 100  // +k: the channel returned by controller call k has closed
+	rState0    = 140  // +id: state argument of instance id
+	rCtx0      = 180  // +id: tag of the context instance id derives from
 )
 
 var errRoutine = errors.New("routine-error")
@@ -38,12 +39,22 @@ const (
 
 // instance is the body of every managed function instance.
 func instance(ctx context.Context, tag, outcome int, state int) error {
+	closedAtEntry := [40]bool{}
+	for k := tag + 1; k < 40 && vsched.Ctr(rTagsExact) != 0; k++ {
+		closedAtEntry[k] = vsched.Ctr(rClosed0+k) != 0 // sampled at the very entry, before any scheduling point
+	}
+	done := ctx.Done() // (a scheduling point) before the instance registers itself
 	id := int(vsched.CtrAdd(rEntered, 1)) - 1
 	if id >= 36 {
 		fail("infra.too-many-instances", "more than 36 instances")
 		return nil
 	}
-	vsched.SetCell(id, ctx)
+	// the Done channel is obtained by the instance itself; other threads only look at its
+	// closedness through the channel header (no access visible to the race detector)
+	vsched.SetCell(id, done)
+	if t, ok := ctx.Value(ctxKey{}).(int); ok {
+		vsched.CtrSet(rCtx0+id, int64(t))
+	}
 	vsched.CtrSet(rTag0+id, int64(tag))
 	vsched.CtrSet(rState0+id, int64(state))
 	a := vsched.CtrAdd(rActive, 1)
@@ -52,7 +63,7 @@ func instance(ctx context.Context, tag, outcome int, state int) error {
 		fail("C04.overlap", "instance %d (routine %d) entered the managed function while another instance is still executing", id, tag)
 	}
 	for k := tag + 1; k < 40 && vsched.Ctr(rTagsExact) != 0; k++ {
-		if vsched.Ctr(rClosed0+k) != 0 {
+		if closedAtEntry[k] {
 			fail("C04.wait-channel", "an instance of routine %d entered after the channel returned by later call %d had closed", tag, k)
 		}
 	}
@@ -94,8 +105,7 @@ func liveInstances(before int) (live, liveOld, lastLive int) {
 	n := int(vsched.Ctr(rEntered))
 	lastLive = -1
 	for id := 0; id < n; id++ {
-		c := vsched.GetCell(id).(context.Context)
-		if vsched.CtxErrQuiet(c) == nil {
+		if !vsched.ChanClosed(vsched.GetCell(id).(<-chan struct{})) {
 			live++
 			lastLive = id
 			if id < before {
@@ -204,8 +214,7 @@ func finalRoutineOracle(o *rcOps, stateVariant bool) {
 			fail("C05.live-without-reason", "an instance with a live context exists although the container has ctx-tag=%d routine=%d state=%d", vsched.Ctr(rCtxTag), vsched.Ctr(rHasRt), st)
 			return
 		}
-		c := vsched.GetCell(last).(context.Context)
-		if tag, _ := c.Value(ctxKey{}).(int); int64(tag) != vsched.Ctr(rCtxTag) {
+		if tag := vsched.Ctr(rCtx0 + last); tag != vsched.Ctr(rCtxTag) {
 			fail("C05.stale-context", "the live instance derives from context %d but the container's current context is %d", tag, vsched.Ctr(rCtxTag))
 		}
 		if stateVariant && int(vsched.Ctr(rState0+last)) != st {
@@ -334,44 +343,44 @@ func init() {
 		Name: "routine-word3", Props: []string{"C04", "C05"}, ObsNames: stdObs,
 		Doc:   "RoutineContainer: ctx+routine set, then every word of length 3 over {SetRoutine(new), RestartRoutine, SetContext(fresh,true), ClearContext, SetContext(same,false)}; instances run until cancelled and return two steps later; overlap, wait-channel and supersession oracles",
 		Quick: eng.Bounds{PB: 2, Delay: true}, Thorough: eng.Bounds{PB: 3, Delay: true},
-		Body:  routineWord(false, basic, 3, []int{iUntilCancelled}),
+		Body: routineWord(false, basic, 3, []int{iUntilCancelled}),
 	})
 	eng.Register(&eng.Scenario{
 		Name: "routine-word2-outcomes", Props: []string{"C04", "C05"}, ObsNames: stdObs,
 		Doc:   "RoutineContainer: words of length 2, each instance's outcome chosen from {run until cancelled, return nil, return error}",
 		Quick: eng.Bounds{PB: 1}, Thorough: eng.Bounds{PB: 2},
-		Body:  routineWord(false, append(basic, lCtxFresh), 2, []int{iUntilCancelled, iReturnNil, iReturnErr}),
+		Body: routineWord(false, append(basic, lCtxFresh), 2, []int{iUntilCancelled, iReturnNil, iReturnErr}),
 	})
 	stateAlpha := []int{lSetRoutine, lRestart, lCtxFreshRestart, lClear, lState1, lState2, lState0, lStateSame}
 	eng.Register(&eng.Scenario{
 		Name: "sroutine-word3", Props: []string{"C04", "C05"}, ObsNames: stdObs,
 		Doc:   "StateRoutineContainer: ctx, state 1 and routine set, then every word of length 3 over {SetStateRoutine(new), RestartRoutine, SetContext(fresh,true), ClearContext, SetState(1|2|0|same)}",
 		Quick: eng.Bounds{PB: 1, Delay: true}, Thorough: eng.Bounds{PB: 2, Delay: true},
-		Body:  routineWord(true, stateAlpha, 3, []int{iUntilCancelled}),
+		Body: routineWord(true, stateAlpha, 3, []int{iUntilCancelled}),
 	})
 	eng.Register(&eng.Scenario{
 		Name: "sroutine-word2", Props: []string{"C04", "C05"}, ObsNames: stdObs,
 		Doc:   "StateRoutineContainer: as sroutine-word3 with words of length 2 and a deeper schedule bound",
 		Quick: eng.Bounds{PB: 2, Delay: true}, Thorough: eng.Bounds{PB: 4, Delay: true},
-		Body:  routineWord(true, stateAlpha, 2, []int{iUntilCancelled}),
+		Body: routineWord(true, stateAlpha, 2, []int{iUntilCancelled}),
 	})
 	eng.Register(&eng.Scenario{
 		Name: "sroutine-two", Props: []string{"C05", "C04"}, ObsNames: stdObs,
 		Doc:   "StateRoutineContainer, two concurrent controllers: T1 = SetContext(c1); ClearContext; SetContext(c2)  ||  T2 = SetState(1); SetState(2); at quiescence the survivor derives from c2 and has GetState()",
 		Quick: eng.Bounds{PB: 2}, Thorough: eng.Bounds{PB: 3},
-		Body:  routineTwo(true, []int{lCtxFresh, lClear, lCtxFresh}, []int{lState1, lState2}, []int{iUntilCancelled}),
+		Body: routineTwo(true, []int{lCtxFresh, lClear, lCtxFresh}, []int{lState1, lState2}, []int{iUntilCancelled}),
 	})
 	eng.Register(&eng.Scenario{
 		Name: "sroutine-two-b", Props: []string{"C05", "C04"}, ObsNames: stdObs,
 		Doc:   "StateRoutineContainer, two concurrent controllers: T1 = SetContext(c1); SetContext(c2,true)  ||  T2 = SetState(1); SetState(0); SetState(2)",
 		Quick: eng.Bounds{PB: 2}, Thorough: eng.Bounds{PB: 3},
-		Body:  routineTwo(true, []int{lCtxFresh, lCtxFreshRestart}, []int{lState1, lState0, lState2}, []int{iUntilCancelled}),
+		Body: routineTwo(true, []int{lCtxFresh, lCtxFreshRestart}, []int{lState1, lState0, lState2}, []int{iUntilCancelled}),
 	})
 	eng.Register(&eng.Scenario{
 		Name: "routine-two", Props: []string{"C05", "C04"}, ObsNames: stdObs,
 		Doc:   "RoutineContainer, two concurrent controllers: T1 = SetContext(c1); ClearContext; SetContext(c2)  ||  T2 = SetRoutine(new); RestartRoutine",
 		Quick: eng.Bounds{PB: 3, Delay: true}, Thorough: eng.Bounds{PB: 5, Delay: true},
-		Body:  routineTwo(false, []int{lCtxFresh, lClear, lCtxFresh}, []int{lSetRoutine, lRestart}, []int{iUntilCancelled}),
+		Body: routineTwo(false, []int{lCtxFresh, lClear, lCtxFresh}, []int{lSetRoutine, lRestart}, []int{iUntilCancelled}),
 	})
 	eng.Register(&eng.Scenario{
 		Name: "routine-retry", Props: []string{"C04", "C05"}, ObsNames: stdObs,
